@@ -242,6 +242,7 @@ def run(facts, out):
     check_lossless(facts, out)
     check_end_time_separator(facts, out)
     check_line_termination(facts, out)
+    check_whole_lists_written(facts, out)
     check_redundancy_tolerance(facts, out)
 
 
@@ -454,6 +455,75 @@ def check_line_termination(facts, out):
                 '' if ok else bad[1] + ': the next record would be glued to this line and misread or dropped by the decoder',
                 ordinal=False)
     out.anchor('KT', 'write events examined for line termination', n >= 20, '%d' % n)
+
+
+# K11: list-valued fields of the key/value, event and colour sections (bookmarks, breaks, combo and custom
+# colours) are written element by element: the iteration over such a field is not filtered, cut,
+# offset, reordered or de-duplicated.
+LIST_SELECTING = {'filter', 'filter_map', 'skip', 'skip_while', 'take', 'take_while', 'step_by', 'rev', 'dedup', 'dedup_by',
+                  'dedup_by_key', 'map_while', 'scan', 'last', 'nth', 'find', 'position', 'max', 'min', 'max_by', 'min_by',
+                  'max_by_key', 'min_by_key', 'chunks', 'windows', 'rsplit', 'split_last'}
+
+
+def check_whole_lists_written(facts, out):
+    writers = [writer_of(facts, sec, w) for sec, (_d, _k, w) in SECTIONS.items()]
+    writers.append(writer_of(facts, 'Events', 'encode::<impl beatmap::Beatmap>::encode_events'))
+    writers.append(writer_of(facts, 'Colours', 'encode::<impl beatmap::Beatmap>::encode_colors'))
+    n = 0
+    for writer in writers:
+        hfn = facts.hir.get(writer)
+        if hfn is None:
+            continue
+        wbody = facts.body(writer)
+        wfile = wbody.file if wbody else 'src/encode.rs'
+        bad = []
+
+        def visit(x, anc):
+            nonlocal n
+            if x.get('k') != 'mcall':
+                return
+            # receiver chain down to its root
+            names = []
+            cur = x
+            while isinstance(cur, dict) and cur.get('k') == 'mcall':
+                names.append(cur.get('name'))
+                cur = H.peel(cur['recv'])
+            fc = H.field_chain(cur) if isinstance(cur, dict) else None
+            if not fc or fc[0] != 'self' or not fc[1]:
+                return
+            ty = cur.get('ty', '')
+            if 'Vec<' not in ty and not ty.startswith('['):
+                return
+            if any(isinstance(a, dict) and a.get('k') == 'mcall' and a.get('recv') is not None and
+                   H.peel(a['recv']) is x for a in anc[-1:]):
+                return      # not the outermost call of the chain
+            n += 1
+            sel = [nm for nm in names if nm in LIST_SELECTING]
+            if sel:
+                bad.append((fc[1][-1], sel, x.get('ln')))
+        H.walk(hfn['body'], visit)
+        for h2 in [facts.hir[d] for d in _local_encode_callees(facts, hfn)]:
+            H.walk(h2['body'], visit)
+        ok = not bad
+        out.add('KT-K11', writer, 'lists-written-whole', '%s:%d' % (wfile, bad[0][2] if bad and bad[0][2] else (wbody.line if wbody else 0)),
+                ok, '' if ok else ('the list `%s` is written through `%s`: elements the decoder stored are not written back'
+                                   % (bad[0][0], ', '.join(bad[0][1]))), ordinal=False)
+    out.anchor('KT', 'iterations over list fields in the writers', n >= 3, '%d' % n)
+
+
+def _local_encode_callees(facts, hfn):
+    res = []
+
+    def v(n, anc):
+        d = None
+        if n.get('k') == 'call' and n['f'].get('k') == 'path':
+            d = n['f'].get('def')
+        elif n.get('k') == 'mcall':
+            d = n.get('def')
+        if d and dict.__contains__(facts.hir, d) and d != hfn['path'] and d.startswith('encode::') and d not in res:
+            res.append(d)
+    H.walk(hfn['body'], v)
+    return res
 
 
 # K9: the encoder drops an inherited line whose properties equal the previous ones; the decoder drops a
